@@ -230,8 +230,26 @@ def rtruediv (R : Registry) (m : Mode) (x : Rat) (a : Qty) : Except Err Qty :=
   | .error e => .error e
   | .ok a' => if a'.mag = 0 then .error .zeroDiv else .ok ⟨x / a'.mag, a'.units.inv⟩
 
+/-- operands of `//`, `%` and `divmod` (F58 repair): quantities on an offset scale are refused, or taken to root
+    units first in autoconvert mode, as for true division -/
+def offsetFree (R : Registry) (m : Mode) (a : Qty) (b : Operand) : Except Err (Qty × Operand) :=
+  let allMult := R.isMultQ a && (match b with | .q b => R.isMultQ b | .num _ => true)
+  if allMult then .ok (a, b)
+  else if !m.autoconvert then .error .offsetCalc
+  else match R.toRoot m a with
+    | .error e => .error e
+    | .ok a' =>
+      match b with
+      | .num x => .ok (a', .num x)
+      | .q b => match R.toRoot m b with
+        | .error e => .error e
+        | .ok b' => .ok (a', .q b')
+
 /-- `__floordiv__` -/
-def floordiv (R : Registry) (m : Mode) (a : Qty) (b : Operand) : Except Err Qty :=
+def floordiv (R : Registry) (m : Mode) (a0 : Qty) (b0 : Operand) : Except Err Qty :=
+  match offsetFree R m a0 b0 with
+  | .error e => .error e
+  | .ok (a, b) =>
   match b with
   | .q b =>
     match R.convertTo m b a.units with
@@ -247,7 +265,10 @@ def floordiv (R : Registry) (m : Mode) (a : Qty) (b : Operand) : Except Err Qty 
       | .ok v => if x = 0 then .error .zeroDiv else .ok ⟨pyFloorDiv v x, []⟩
 
 /-- `__rfloordiv__` : number // quantity -/
-def rfloordiv (R : Registry) (m : Mode) (x : Rat) (a : Qty) : Except Err Qty :=
+def rfloordiv (R : Registry) (m : Mode) (x : Rat) (a0 : Qty) : Except Err Qty :=
+  match offsetFree R m a0 (.num x) with
+  | .error e => .error e
+  | .ok (a, _) =>
   match R.dimensionless m a with
   | .error e => .error e
   | .ok false => .error .dimensionality
@@ -257,14 +278,20 @@ def rfloordiv (R : Registry) (m : Mode) (x : Rat) (a : Qty) : Except Err Qty :=
     | .ok v => if v = 0 then .error .zeroDiv else .ok ⟨pyFloorDiv x v, []⟩
 
 /-- `__mod__` -/
-def mod (R : Registry) (m : Mode) (a : Qty) (b : Operand) : Except Err Qty :=
+def mod (R : Registry) (m : Mode) (a0 : Qty) (b0 : Operand) : Except Err Qty :=
+  match offsetFree R m a0 b0 with
+  | .error e => .error e
+  | .ok (a, b) =>
   let b' : Qty := match b with | .q b => b | .num x => ⟨x, []⟩
   match R.convertTo m b' a.units with
   | .error e => .error e
   | .ok v => if v = 0 then .error .zeroDiv else .ok ⟨pyMod a.mag v, a.units⟩
 
 /-- `__rmod__` : number % quantity -/
-def rmod (R : Registry) (m : Mode) (x : Rat) (a : Qty) : Except Err Qty :=
+def rmod (R : Registry) (m : Mode) (x : Rat) (a0 : Qty) : Except Err Qty :=
+  match offsetFree R m a0 (.num x) with
+  | .error e => .error e
+  | .ok (a, _) =>
   match R.dimensionless m a with
   | .error e => .error e
   | .ok false => .error .dimensionality
@@ -274,7 +301,10 @@ def rmod (R : Registry) (m : Mode) (x : Rat) (a : Qty) : Except Err Qty :=
     | .ok v => if v = 0 then .error .zeroDiv else .ok ⟨pyMod x v, []⟩
 
 /-- `__divmod__` -/
-def divmod (R : Registry) (m : Mode) (a : Qty) (b : Operand) : Except Err (Qty × Qty) :=
+def divmod (R : Registry) (m : Mode) (a0 : Qty) (b0 : Operand) : Except Err (Qty × Qty) :=
+  match offsetFree R m a0 b0 with
+  | .error e => .error e
+  | .ok (a, b) =>
   let b' : Qty := match b with | .q b => b | .num x => ⟨x, []⟩
   match R.convertTo m b' a.units with
   | .error e => .error e
